@@ -64,6 +64,30 @@ def all_valid_control(e, g):
     return [b]
 
 
+TOKEN_EVENTS = ["mint", "transfer", "burn", "approve", "set_admin", "minter_added", "minter_removed", "ownership_transferred"]
+
+
+def zero_amount_control(e, g):
+    """token/gas rules: the same call with amount 0 (auth and roles unchanged), or, for a zero-amount call,
+    a sibling with another amount"""
+    a = e['act']
+    if not e['exp']['ok'] or 'amt' not in a:
+        return None
+    if a['amt'] != 0:
+        b = dict(a); b['amt'] = 0
+        return [[b]]
+    alts = []
+    for ei in g.out[e['_pre']]:
+        o = g.edges[ei]
+        b = o['act']
+        if o['exp']['ok'] and b['name'] == a['name'] and b.get('amt') != 0 and \
+                all(b.get(k) == a.get(k) for k in a if k not in ('amt', 'exp')):
+            alts.append([b])
+            if len(alts) >= 2:
+                break
+    return alts or None
+
+
 PROPS = {
     "C02": {
         "title": "Each message is approved once and executed once, only by its destination",
@@ -160,6 +184,28 @@ PROPS = {
         "level_text": "TLC proves 'exactly one announcement with these fields, no state change, only under the sender's authority' for every action of the instance; every one (3 kinds of sender x authorisers x 12 destination string pairs x 7 payload sizes up to 20 KiB) is executed against the real gateway. Bit-exactness of the published hash is decided by the binding's independent Keccak-256 (sha3 crate), not by TLC.",
         "rule": "cases = call_contract transitions replayed against the contract; distinct = distinct (sender kind, authorisers, chain, address, payload) tuples",
         "assumptions": ["soroban-env-host test mode implements on-chain semantics", "Keccak-256 of the sha3 crate is the reference hash"],
+    },
+    "C12": {
+        "title": "Token balances, allowances and supply follow the standard token rules",
+        "policy": {"guards": ["is_minter", "amount", "expiry", "allowance", "balance", "overflow"],
+                   "fields": ["bal", "allowance", "minters"],
+                   "events": ["mint", "transfer", "burn", "approve", "set_admin", "minter_added", "minter_removed"], "rets": []},
+        "jobs": [
+            {"kind": "graph", "spec": "MC_C12", "cfg": "MC_C12_unit", "module": "Token", "evkinds": TOKEN_EVENTS,
+             "need": ["Transfer/ok", "Transfer/balance", "TransferFrom/ok", "TransferFrom/allowance", "BurnFrom/ok",
+                      "Approve/ok", "Approve/expiry", "Approve/host_ttl", "Mint/ok", "Burn/ok", "AdvanceLedger/ok"],
+             "control": zero_amount_control, "quick_edges": 20000, "max_len": 40},
+            {"kind": "graph", "spec": "MC_C12", "cfg": "MC_C12_max", "module": "Token", "evkinds": TOKEN_EVENTS,
+             "need": ["Mint/overflow", "Transfer/overflow", "TransferFrom/ok"],
+             "control": zero_amount_control, "quick_edges": 10000, "max_len": 40},
+            {"kind": "graph", "spec": "MC_C12", "cfg": "MC_C12_roles", "module": "Token", "evkinds": TOKEN_EVENTS,
+             "need": ["MintFrom/ok", "MintFrom/is_minter", "Mint/is_minter", "AddMinter/ok", "RemoveMinter/ok", "TransferOwnership/ok"],
+             "control": zero_amount_control},
+        ],
+        "level_text": "TLC proves the token step rules (exact deltas, conservation of supply, non-negativity, allowance decrease and expiry, minters only, admin event names previous and new) on every transition of three finite instances (unit amounts; the i128 lattice where 2 units = i128::MAX-1; minter/owner changes) - all interleavings, no depth bound; transitions are executed against the natively registered token from /repo and balances, effective allowances of all pairs, minters and events compared. Quick replays a node cover plus a seeded sample, thorough every edge.",
+        "rule": "cases = transitions of the bounded TLC instances replayed against the contract; distinct = distinct (abstract pre-state, action) pairs",
+        "assumptions": ["soroban-env-host test mode implements on-chain semantics incl. temporary-entry expiry", "host max_ttl is read at run time and must equal the instance's MaxLive",
+                        "bounds: 3 users + owner, supply <= 2 units, one allowance pair, ledger 1..3"],
     },
 }
 
